@@ -3,6 +3,7 @@ package main
 import (
 	"fmt"
 	"math/rand"
+	"runtime"
 	"sort"
 	"sync"
 	"sync/atomic"
@@ -40,10 +41,60 @@ func concBase(kind string) factstore.FactStoreWithRemove {
 	return factstore.NewMultiIndexedArrayInMemoryStore()
 }
 
+// slowBase stretches every operation of the wrapped (base) store with scheduler yields. The
+// concurrent store calls its base only inside its critical sections, so a correct lock discipline
+// stays linearizable however slow the base is, while a check-then-act split over two critical
+// sections, or a critical section that is too short, gets a window wide enough to be observed.
+type slowBase struct {
+	factstore.FactStoreWithRemove
+	spin int
+}
+
+func (s slowBase) pause() {
+	for i := 0; i < s.spin; i++ {
+		runtime.Gosched()
+	}
+}
+func (s slowBase) Add(a ast.Atom) bool {
+	s.pause()
+	r := s.FactStoreWithRemove.Add(a)
+	s.pause()
+	return r
+}
+func (s slowBase) Remove(a ast.Atom) bool {
+	s.pause()
+	r := s.FactStoreWithRemove.Remove(a)
+	s.pause()
+	return r
+}
+func (s slowBase) Contains(a ast.Atom) bool {
+	s.pause()
+	r := s.FactStoreWithRemove.Contains(a)
+	s.pause()
+	return r
+}
+func (s slowBase) GetFacts(a ast.Atom, fn func(ast.Atom) error) error {
+	s.pause()
+	err := s.FactStoreWithRemove.GetFacts(a, fn)
+	s.pause()
+	return err
+}
+func (s slowBase) Merge(o factstore.ReadOnlyFactStore) {
+	s.pause()
+	s.FactStoreWithRemove.Merge(o)
+	s.pause()
+}
+
 func recordConcHistory(id string, rnd *rand.Rand, procs, opsPer int) []any {
 	kinds := []string{"simple", "indexed", "multi", "array"}
 	kind := kinds[rnd.Intn(len(kinds))]
-	store := factstore.NewConcurrentFactStore(concBase(kind))
+	base := concBase(kind)
+	if spin := rnd.Intn(3); spin > 0 {
+		// two thirds of the histories run on a slowed-down base store
+		base = slowBase{base, spin * 3}
+		kind += "+slow"
+	}
+	store := factstore.NewConcurrentFactStore(base)
 	u := concUniverse()
 	var names []string
 	for p := 0; p < procs; p++ {
